@@ -146,7 +146,11 @@ class HttpProtocolHandler(BaseTcpServerHandler[HttpClientConnection]):
         if self.plugin:
             self.writes_teared = await self.plugin.write_to_descriptors(writables)
             if self.writes_teared:
-                return True
+                # Data already queued for the client must still be
+                # delivered, stop reading and tear down once flushed.
+                if not self.work.has_buffer():
+                    return True
+                self.reads_teared = True
         # Read from ready to read sockets if reads have not already teared down
         if not self.reads_teared:
             self.reads_teared = await self.handle_readables(readables)
